@@ -63,6 +63,9 @@ func drawC06(t *rapid.T) caseC06 {
 		c.Cfg.SizeInHeader, c.Cfg.Size = true, int64(n-c.Delta)
 		c.Cfg.EOSMarker = rapid.Bool().Draw(t, "eos")
 	}
+	if rapid.IntRange(0, 11).Draw(t, "oddcfg") == 0 {
+		gen.DrawOdd(t, &c.Cfg, "lzma")
+	}
 	return c
 }
 
@@ -84,6 +87,9 @@ type lzmaRun struct {
 func runLZMAWrite(c caseC06) (*lzmaRun, *ev.Failure) {
 	cfg := c.Cfg.W1()
 	if err := cfg.Verify(); err != nil {
+		if c.Cfg.Odd != "" {
+			return nil, rejectedCfg
+		}
 		panic("generator produced a configuration Verify rejects: " + err.Error())
 	}
 	m := matcherName(c.Cfg.Matcher)
@@ -98,6 +104,9 @@ func runLZMAWrite(c caseC06) (*lzmaRun, *ev.Failure) {
 		priorWrite(func(s io.Writer) (io.WriteCloser, error) { return c.Cfg.W1().NewWriter(s) }, 1+len(data)%9000)
 	}
 	w, err := c.Cfg.W1().NewWriter(sink)
+	if err != nil && c.Cfg.Odd != "" {
+		return nil, rejectedCfg
+	}
 	if err != nil {
 		return nil, ev.Fail("NewWriter: "+err.Error(), "stage", "newwriter", "matcher", m)
 	}
@@ -139,6 +148,9 @@ func runLZMAWrite(c caseC06) (*lzmaRun, *ev.Failure) {
 
 func checkC06(c caseC06, rec *ev.Rec) *ev.Failure {
 	run, f := runLZMAWrite(c)
+	if oddOutcome(c.Cfg, f, rec) {
+		return nil
+	}
 	if f != nil {
 		return f
 	}
@@ -208,6 +220,9 @@ func checkC07w(c caseC06, rec *ev.Rec) *ev.Failure {
 		return nil
 	}
 	run, f := runLZMAWrite(c)
+	if oddOutcome(c.Cfg, f, rec) {
+		return nil
+	}
 	if f != nil {
 		rec.Class("write_failed(C06)")
 		return nil
